@@ -47,7 +47,7 @@ def gen_cases(tier, seed):
         ntot = sum(bases.nfunc(s) for s in shells)
         T, tcls = bases.rand_transform(rng, ntot, "none" if i % 3 else None)
         norb = ntot if T is None else len(T)
-        dm, dcls = bases.rand_sym(rng, norb, ["psd", "indef", "psd-lowrank", "diag-indef", "idempotent"][i % 5])
+        dm, dcls = bases.rand_sym(rng, norb, ["psd", "indef", "psd-lowrank", "diag-indef", "idempotent", "hollow"][i % 6])
         if i % 2 == 0:
             a, b = AB[(i // 2) % len(AB)]
             abcls = "ab:special"
